@@ -97,12 +97,24 @@ impl<C: BlsSignatureImpl> PublicKey<C> {
         msg: B,
         id: D,
     ) -> BlsResult<TimeCryptCiphertext<C>> {
-        let dst = match scheme {
-            SignatureSchemes::Basic => <C as BlsSignatureBasic>::DST,
-            SignatureSchemes::MessageAugmentation => <C as BlsSignatureMessageAugmentation>::DST,
-            SignatureSchemes::ProofOfPossession => <C as BlsSignaturePop>::SIG_DST,
+        let aug_id;
+        let (dst, id) = match scheme {
+            SignatureSchemes::Basic => (<C as BlsSignatureBasic>::DST, id.as_ref()),
+            SignatureSchemes::MessageAugmentation => {
+                // the augmentation signature over `id` that opens this ciphertext
+                // is a signature over `pk || id`
+                let mut t =
+                    <C as BlsSignatureMessageAugmentation>::pk_bytes(self.0, id.as_ref().len());
+                t.extend_from_slice(id.as_ref());
+                aug_id = t;
+                (
+                    <C as BlsSignatureMessageAugmentation>::DST,
+                    aug_id.as_slice(),
+                )
+            }
+            SignatureSchemes::ProofOfPossession => (<C as BlsSignaturePop>::SIG_DST, id.as_ref()),
         };
-        let (u, v, w) = <C as BlsTimeCrypt>::seal(self.0, msg.as_ref(), id.as_ref(), dst)?;
+        let (u, v, w) = <C as BlsTimeCrypt>::seal(self.0, msg.as_ref(), id, dst)?;
         Ok(TimeCryptCiphertext { u, v, w, scheme })
     }
 
